@@ -70,7 +70,8 @@ fn first_serving(s: u8) -> u32 {
     match s {
         0 => 1,
         1 | 2 | 3 => 2,
-        4 => 4,
+        4 | 6 => 4,
+        7 => 6,
         _ => 3,
     }
 }
@@ -83,6 +84,8 @@ fn source(r: &RecipeSpec, vals: &[QSpec]) -> String {
         3 => s.push_str("---\nservings: [2, 4]\ntitle: T\n---\n"),
         4 => s.push_str("---\nservings: 4\n---\n"),
         5 => s.push_str(">> servings: 3 people|6\n"),
+        6 => s.push_str(">> servings: 4|2\n"),
+        7 => s.push_str("---\nservings: [6, 2, 4]\n---\n"),
         _ => {}
     }
     s.push_str("Add");
@@ -392,6 +395,8 @@ fn check(env: &Env, pi: usize, spec: &RecipeSpec, local: &mut Local) -> Vec<Viol
         1 => Some(vec![2]),
         2 | 3 => Some(vec![2, 4]),
         4 => Some(vec![4]),
+        6 => Some(vec![4, 2]),
+        7 => Some(vec![6, 2, 4]),
         _ => Some(vec![3, 6]),
     };
     if declared != want_declared {
@@ -418,7 +423,7 @@ fn specs(tier: Tier, vals: &[QSpec]) -> Vec<RecipeSpec> {
         for unit in UNITS {
             for lock in [false, true] {
                 for reference in 0..=4u8 {
-                    for servings in [0u8, 2] {
+                    for servings in [0u8, 2, 6] {
                         v.push(RecipeSpec { comps: vec![CompSpec { kind: 'i', value: Some(val), unit, lock }], servings, reference, inline: false });
                     }
                 }
@@ -426,7 +431,7 @@ fn specs(tier: Tier, vals: &[QSpec]) -> Vec<RecipeSpec> {
         }
     }
     // no quantity
-    for servings in 0..=5u8 {
+    for servings in 0..=7u8 {
         v.push(RecipeSpec { comps: vec![CompSpec { kind: 'i', value: None, unit: "", lock: false }], servings, reference: 0, inline: true });
     }
     // cookware and timers
@@ -443,7 +448,7 @@ fn specs(tier: Tier, vals: &[QSpec]) -> Vec<RecipeSpec> {
     for val in 0..nv {
         for unit in combo_units {
             for lock in [false, true] {
-                for servings in 0..=5u8 {
+                for servings in 0..=7u8 {
                     for val2 in [0usize, 7, 13] {
                         v.push(RecipeSpec {
                             comps: vec![
